@@ -83,7 +83,15 @@ def classify(src):
     fn = next((n for cls in ast.walk(tree) if isinstance(cls, ast.ClassDef) and cls.name == 'VacancyMediated'
                for n in cls.body if isinstance(n, ast.FunctionDef) and n.name == 'Lij'), None)
     if fn is None: return dict(found=False, returnCopies=False, storeCopies=False, detail='Lij not found')
-    rets = [n for n in ast.walk(fn) if isinstance(n, ast.Return) and n.value is not None]
+    def own_nodes(f):
+        """nodes of the function body without the bodies of nested function definitions (their returns are not Lij's)"""
+        stack = list(f.body)
+        while stack:
+            n = stack.pop()
+            yield n
+            if isinstance(n, (ast.FunctionDef, ast.AsyncFunctionDef, ast.Lambda, ast.ClassDef)): continue
+            stack.extend(ast.iter_child_nodes(n))
+    rets = [n for n in own_nodes(fn) if isinstance(n, ast.Return) and n.value is not None]
     stores = [n for n in ast.walk(fn) if isinstance(n, ast.Assign) and len(n.targets) == 1
               and isinstance(n.targets[0], ast.Subscript)
               and ast.unparse(n.targets[0].value) == 'self.Lvvvalues']
